@@ -661,7 +661,18 @@ static std::string run_single(const std::string &line)
         60);
     if (!ok)
         return "SETUP-CRASH";
-    return verif::run_forked([&]() { return run_line(line); }, 120);
+    std::string full = verif::run_forked([&]() { return run_line(line); }, 120);
+    bool died = full.find("CRASH:") != std::string::npos || (full.size() >= 4 && full.substr(full.size() - 4) == "HANG");
+    if (died && f.size() > 3 && (f[0] == "Q" || f[0] == "R") && trim(f[3]) != "-") {
+        // did the library's substitution of the ORACLE die (constructors outside the anchored code), or the
+        // query / refine itself?  Redo the case without valuations.
+        std::string line2 = f[0] + "\t" + f[1] + "\t" + f[2] + "\t-";
+        std::string r2 = verif::run_forked([&]() { return run_line(line2); }, 120);
+        bool died2 = r2.find("CRASH:") != std::string::npos || (r2.size() >= 4 && r2.substr(r2.size() - 4) == "HANG");
+        if (!died2)
+            return r2 + "\t#ORACLE-DIED";
+    }
+    return full;
 }
 
 int main()
